@@ -74,6 +74,10 @@ def resolve(ctx, env0, env, spec, e, idx):
         v = e["val"]
         if v == "sym":
             v = env.fresh(f"new{idx}.{e['obj']}.fixed", lo=0, lo_strict=True, hi=10 ** 6, nice=(1, 30))
+            coll = E._coll_of(spec, e["obj"])
+            cur = spec[coll][e["obj"]].get("fixed_nb_of_instances")
+            if cur is not None:
+                ctx.assume(v != env.get(f"{e['obj']}.fixed_nb_of_instances", cur))   # not a no-op
         return ("fixed", e["obj"], v)
     if k == "link":
         return ("link", e["obj"], e["attr"], e["target"])
